@@ -39,10 +39,10 @@ NS = importlib.import_module('pyglove.ext.evolution.nsga2')
 
 TIERS = {
     'quick': dict(shards=8, cases=18, apps=14, kpoint_extra=3, conflict_extra=4,
-                  max_pop=8, algos=0.2, histories=2, timeout_s=900,
+                  max_pop=8, algos=0.2, histories=1, timeout_s=900,
                   case_timeout_s=600),
     'thorough': dict(shards=16, cases=160, apps=20, kpoint_extra=3, conflict_extra=5,
-                     max_pop=12, algos=0.3, histories=4, timeout_s=5400,
+                     max_pop=12, algos=0.3, histories=3, timeout_s=5400,
                      case_timeout_s=900),
 }
 RULE = ('case = one random search space (gen/spaces.random_space with floats, '
@@ -68,13 +68,13 @@ RULE = ('case = one random search space (gen/spaces.random_space with floats, '
         'class, permutation recombinators preferred when the space has >= 2 '
         'permutation points; or selector >> generator, generator.with_prob) is '
         'constructed with some parameters, called, and brought to other '
-        'parameters by 1..3 chains of rebind (one call or field by field) / '
+        'parameters by 1..2 chains of rebind (one call or field by field) / '
         'attribute assignment / clone(deep or shallow, with override) / JSON '
-        'round trip, each chain followed by 2..3 calls that are compared with '
+        'round trip, each chain followed by 2 calls that are compared with '
         'the same calls of a freshly constructed operator with the final '
-        'parameters; every other history runs on a dedicated small space with '
-        '2..3 top-level permutation points, single choices, a constrained '
-        'multi-choice and a float, on which every random draw of every seeded '
+        'parameters; 60% of the histories run on a dedicated small space with '
+        '2..3 top-level permutation points and a single choice, a '
+        'constrained multi-choice or a float, on which every random draw of every seeded '
         'family matters. Each application is run probed (every node '
         'wrapped, all monitors) and bare (as a user writes it) under different '
         'global RNG states; the state of the global RNG is compared before and '
@@ -1721,20 +1721,22 @@ def permutation_elems(desc):
 def gen_sensitive_space(rng):
   """A small space on which the random draws of every seeded operator family
   matter: 2..3 top-level permutation points (the default where filter of a
-  permutation recombinator has to choose), single choices, sometimes a
-  constrained multi-choice and a float."""
+  permutation recombinator has to choose) and a single choice, a constrained
+  multi-choice or a float. (Small: the library needs ~1.5 ms of
+  CPU per DNA node and a permutation crossover builds ~6 DNAs.)"""
   elems = [S.choice(n, S.consts(n), True, False, loc=f'hperm{j}')
-           for j, n in enumerate(rng.choice([[3, 4], [4, 3], [4, 4], [3, 3, 4],
-                                             [4, 2, 3]]))]
-  for j in range(rng.randint(1, 2)):
-    n = rng.choice([3, 4, 5])
-    cands = [S.space(S.choice(1, S.consts(3), loc=f'hone{j}c{ci}'))
-             if rng.random() < 0.15 else S.CONST for ci in range(n)]
-    elems.append(S.choice(1, cands, loc=f'hone{j}'))
-  if rng.random() < 0.5:
+           for j, n in enumerate(rng.choice([[3, 3], [3, 3], [3, 3], [3, 4],
+                                             [3, 2, 3]]))]
+  r = rng.random()
+  if r < 0.2:
     elems.append(S.choice(2, S.consts(4), True, rng.random() < 0.5, loc='hmany'))
-  if rng.random() < 0.4:
+  elif r < 0.4:
     elems.append(S.floatv(-1.0, 1.0, loc='hfloat'))
+  else:
+    n = rng.choice([3, 4, 5])
+    cands = [S.space(S.choice(1, S.consts(3), loc=f'honec{ci}'))
+             if rng.random() < 0.15 else S.CONST for ci in range(n)]
+    elems.append(S.choice(1, cands, loc='hone'))
   rng.shuffle(elems)
   return S.space(*elems)
 
@@ -1746,12 +1748,15 @@ def sensitive_env(ctx, rng):
   spec = S.build(desc)
   ctx.label = None
   env = Env(ctx, rng, desc, spec)
-  env.make_population(rng, rng.randint(3, 4))
+  env.make_population(rng, rng.randint(2, 3))
   case = {'space': S.show(desc), 'population': [repr(list(m)) for m in env.members],
           'fitness': [repr(f) for f in env.fitness]}
-  if any(check_dna(env, d, 'parent', case, 'parent', report=False) for d in env.pop):
-    ctx.counters['cases_with_invalid_parents'] += 1
-    return None
+  # premise (valid parents of the canonical shape; their construction is C11/C12)
+  for d, m in zip(env.pop, env.members):
+    flat = tuple(d.to_numbers())
+    if flat != tuple(m) or G.tree(desc, flat) != dna_shape(d) or d.spec is None:
+      ctx.counters['cases_with_invalid_parents'] += 1
+      return None
   ctx.counters['sensitive_spaces'] += 1
   return env, case
 
@@ -1762,7 +1767,7 @@ def gen_subject(rng, env):
   npop = len(env.pop)
   everyone = list(range(npop))
   few = everyone if npop <= 5 else sorted(rng.sample(everyone, 5))
-  if len(permutation_elems(env.desc)) >= 2 and rng.random() < 0.35:
+  if len(permutation_elems(env.desc)) >= 2 and rng.random() < 0.25:
     fam = rng.choice(PERMUTATION)       # the where filter has to draw
   else:
     fam = rng.choice(SEEDED_LEAVES + ['pipeline', 'choice'])
@@ -1783,7 +1788,9 @@ def gen_subject(rng, env):
             'seed': rng.randrange(1000)}, few
   node, idxs = gen_application(rng, env, fam)
   if fam in PERMUTATION:
-    w = rng.choice([None, None, 'any1', 'any1', 'any2', 'ALL', 'first'])
+    # (where.ALL multiplies the children and draws nothing: the applications
+    # cover it)
+    w = rng.choice([None, None, None, 'any1', 'any1', 'any2', 'first'])
     node.pop('wseed', None)
     node['where'] = w
     if w in ('any1', 'any2'):
@@ -1910,10 +1917,11 @@ def gen_history(rng, env, expr):
   documented; transformations of an operator that was not called since its
   last anchor leave it in the state of a fresh operator either way."""
   steps, cur, called = [], expr, False
-  if rng.random() < 0.45:
-    steps.append({'s': 'call', 'n': rng.randint(1, 2)})
+  if rng.random() < 0.35:
+    # (not compared: fresh against fresh is what the applications check)
+    steps.append({'s': 'call', 'n': 1, 'compare': False})
     called = True
-  for _ in range(rng.choice([1, 1, 2, 2, 3])):
+  for _ in range(rng.choice([1, 1, 2])):
     chain = []
     for j in range(rng.choice([1, 1, 1, 2])):
       anchor = called and j == 0
@@ -1947,7 +1955,7 @@ def gen_history(rng, env, expr):
       cur, _ = apply_updates(cur, updates)
       chain.append(step)
     steps.extend(chain)
-    steps.append({'s': 'call', 'n': rng.randint(2, 3)})
+    steps.append({'s': 'call', 'n': 2})
     called = True
   return steps
 
@@ -2071,7 +2079,7 @@ def run_history(ctx, env, expr, steps, inputs, step0, case, quiet=False):
                     f'parameters are seeded', case)
     return out
 
-  def flush():
+  def flush(final=False):
     """Compares the pending run of calls with a fresh operator."""
     trace, calls = state['trace'], state['calls']
     state['trace'], state['calls'] = [], []
@@ -2089,10 +2097,11 @@ def run_history(ctx, env, expr, steps, inputs, step0, case, quiet=False):
                 f'{k + 1} after the last re-seeding step (step={st}); a fresh '
                 f'operator with these parameters returned {want!r:.500} on the '
                 f'same inputs (call {k + 1})')
-    if not quiet and state['last_out'] is not None:
+    if final and not quiet and state['last_out'] is not None:
       for o in state['last_out']:
         if isinstance(o, pg.DNA) and id(o) not in pop_ids:
           check_dna(env, o, root, case)
+          break                   # (one: the probes check every output)
     return None
 
   state['history'] = [dict(s) for s in steps]
@@ -2109,7 +2118,7 @@ def run_history(ctx, env, expr, steps, inputs, step0, case, quiet=False):
         if not isinstance(out, list):
           raise HistoryEnd()          # (reported by the probes of the operator)
         state['ncalls'] += 1
-        if state['known']:
+        if state['known'] and s.get('compare', True):
           state['trace'].append(signature(env, pop_ids, out))
           state['calls'].append(st)
           state['last_out'] = flatten(out)
@@ -2129,7 +2138,7 @@ def run_history(ctx, env, expr, steps, inputs, step0, case, quiet=False):
     op, cur = state['op'], state['expr']
     state['op'], state['expr'] = guarded(
         f'{root}:history-{s["kind"]}', lambda: transform(op, cur, s))
-  return flush()
+  return flush(final=True)
 
 
 def history_kind(ctx, env, chain, inputs, step0, case):
@@ -2248,10 +2257,10 @@ def run_case(ctx, i):
   if rng.random() < float(ctx.params['algos']):
     run_algorithm(ctx, env, rng, case)
   # operator histories (drawn last: the applications above keep their stream)
-  # half of them on a dedicated space on which every random draw matters
+  # most of them on a dedicated space on which every random draw matters
   sensitive = None
-  for h in range(int(ctx.params.get('histories', 0))):
-    if h % 2 == 0:
+  for _ in range(int(ctx.params.get('histories', 0))):
+    if rng.random() < 0.6:
       sensitive = sensitive or sensitive_env(ctx, rng)
       if sensitive:
         history_application(ctx, sensitive[0], rng, sensitive[1])
